@@ -1559,8 +1559,17 @@ func (s *Sim) settleImplicit() {
 type Pool struct {
 	New   func() interface{}
 	items []interface{}
+	owner *Sim // the simulation the items belong to: a pool (a package-level variable, usually) starts every run empty
 	mu    sync.Mutex
 	real  sync.Pool
+}
+
+// fresh drops what an earlier simulation of this process left in the pool, so
+// that a run is a function of its plan and not of the runs before it.
+func (p *Pool) fresh(s *Sim) {
+	if p.owner != s {
+		p.owner, p.items = s, nil
+	}
 }
 
 func (p *Pool) Get() interface{} {
@@ -1575,6 +1584,7 @@ func (p *Pool) Get() interface{} {
 		return nil
 	}
 	p.mu.Lock()
+	p.fresh(s)
 	if n := len(p.items); n > 0 {
 		x := p.items[n-1]
 		p.items = p.items[:n-1]
@@ -1595,6 +1605,7 @@ func (p *Pool) Put(x interface{}) {
 		return
 	}
 	p.mu.Lock()
+	p.fresh(s)
 	p.items = append(p.items, x)
 	p.mu.Unlock()
 }
